@@ -232,12 +232,13 @@ def run(ctx):
             try:
                 # fault-free baselines
                 base = {}
+                unk = name.startswith(("neighbors", "find_links")) or name in ("bft", "ibft", "dft_recursive", "idft_recursive", "dft_iterative", "idft_iterative")
                 for mode in ("none", "good", "good-cold"):
-                    g = G(h, caching)
+                    g = G(h, caching, unknown_link=unk)
                     # "cold": the reference observation is taken on a twin graph, so the operation itself meets empty memos
                     obs0 = observe(h, g)
                     if mode == "good-cold":
-                        g = G(h, caching)
+                        g = G(h, caching, unknown_link=unk)
                     pre = heap(g.objs)
                     cbs = mkcbs(cbnames if mode != "none" else ())
                     out = thunk(g, cbs)
@@ -257,7 +258,7 @@ def run(ctx):
                 counts = base["good"][1]
                 for c in cbnames:
                     for k in range(counts.get(c, 0)):
-                        g = G(h, caching)
+                        g = G(h, caching, unknown_link=unk)
                         obs0 = observe(h, g)
                         pre = heap(g.objs)
                         armed = [True]
